@@ -90,5 +90,39 @@ def big_arrays(c, only=None):
                                                 'replay': "echo '%s' | /verif/harness/bin/arrops" % line})
             if len(c.violations) > 4:
                 break
-    return {'large_array_cases': len(cases), 'large_array_ops': hist, 'largest_array_elements': biggest,
+    slivers = sliver_cases(c) if (only is None or 'RESHAPE' in only) else 0
+    return {'sliver_views_of_large_blocks': slivers, 'large_array_cases': len(cases), 'large_array_ops': hist, 'largest_array_elements': biggest,
             'large_array_gomaxprocs': sorted({cs[0] for cs in cases})}
+
+
+def sliver_cases(c):
+    """one-series views of LARGE result blocks ([cells, variables, timesteps], 2^20 .. 2^21.6 elements) reshaped to 1-D as the
+    generated wrappers do and written through: the block sees the writes, the reshaped view sees later writes to the block
+    (C02: a reshape of a contiguous view aliases its storage - at any size of what lies behind the view)"""
+    rng = c.rng
+    quick = c.tier == 'quick'
+    cases = []
+    for k in range(6 if quick else 60):
+        T = rng.choice([365, 1000, 3650, 730])
+        vars_ = rng.choice([1, 3, 5])
+        cells = rng.randint((1 << 20) // (T * vars_) + 1, (3 << 20) // (T * vars_))
+        cell = [0, 1, cells // 2, cells - 1, rng.randrange(cells), rng.randrange(cells)][k % 6]
+        cases.append((rng.choice([1, 3]), 'gc'[k % 2] if k < 4 else rng.choice('gc'), cells, vars_, T, cell, rng.randrange(vars_), k % 2 if k < 2 else rng.randint(0, 1), rng.randint(0, 9999)))
+    lines = ['SLIVER %d %s %d %d %d %d %d %d %d' % cs for cs in cases]
+    got = run_lines(os.path.join(HARNESS, 'bin', 'arrops'), lines, env=GOENV, timeout=900)
+    for i, (cs, line, g) in enumerate(zip(cases, lines, got)):
+        procs, be, cells, vars_, T, cell, vr, nested, seed = cs
+        c.count(line, nontrivial=True)
+        n = cells * vars_ * T
+        buf = [float((seed + i2) % 1000) for i2 in range(n)]
+        base = (cell * vars_ + vr) * T
+        for q in range(8):
+            buf[base + (seed * 7 + q * 131) % T] = float(5000 + q)
+        buf[base + (seed + 3) % T] = 7777.0
+        exp = 'buf=%s back=7777' % dig(buf)
+        if g != exp:
+            c.violation('sliver_%d.json' % i, {'kind': 'large-block-sliver-oracle', 'backend': be, 'block_shape': [cells, vars_, T], 'cell': cell,
+                                              'variable': vr, 'nested_slice': bool(nested), 'elements_in_block': n,
+                                              'implementation': g, 'definition': exp + ' (writes through the reshaped series reach the block; the series sees the block)',
+                                              'case_line': line, 'replay': "echo '%s' | /verif/harness/bin/arrops" % line})
+    return len(cases)
